@@ -18,6 +18,8 @@ import wormhole_mailbox_server.server_websocket as WS
 import wormhole_mailbox_server.server_tap as TAP
 import wormhole_mailbox_server.database as DBM
 
+from .rewrite import rewrite_set_displays
+REWRITTEN = rewrite_set_displays(S) + rewrite_set_displays(WS)      # [] on the pinned tree
 REAL_APPNS = S.AppNamespace
 REAL = dict(S_log=S.log, WS_log=WS.log, TAP_log=TAP.log, DBM_log=DBM.log,
             gen=S.generate_mailbox_id, random=S.random, WS_time=WS.time, TAP_time=TAP.time,
